@@ -26,6 +26,30 @@ struct Ctx {
     ids: HashMap<String, String>,
     hdr0: Vec<u8>,
     payload0: Vec<u8>,
+    files0: String,
+}
+
+/// a token for everything Package::files() yields (paths, metadata sizes, contents)
+fn files_token(p: &Package) -> String {
+    use sha2::{Digest, Sha256};
+    let mut h = Sha256::new();
+    match p.files() {
+        Ok(it) => {
+            for (n, f) in it.enumerate() {
+                if n > 10_000 { break; }
+                match f {
+                    Ok(f) => {
+                        h.update(f.metadata.path.to_string_lossy().as_bytes());
+                        h.update((f.metadata.size as u64).to_be_bytes());
+                        h.update(Sha256::digest(&f.content));
+                    }
+                    Err(e) => h.update(format!("err:{e}").as_bytes()),
+                }
+            }
+        }
+        Err(e) => h.update(format!("files-err:{e}").as_bytes()),
+    }
+    hex(&h.finalize())
 }
 
 fn observe(p: &Package, cx: &Ctx) -> Value {
@@ -47,10 +71,10 @@ fn observe(p: &Package, cx: &Ctx) -> Value {
             _ => (false, false),
         };
         json!({"verifies": ver, "signed_by": signed_by, "digests_ok": p.verify_digests().is_ok(),
-               "header_same": hs, "payload_same": ps, "panicked": false})
+               "header_same": hs, "payload_same": ps, "files_same": files_token(p) == cx.files0, "panicked": false})
     });
     r.unwrap_or_else(|m| json!({"verifies": {"rsa4096":false,"rsa3072p":false,"ed25519":false,"ecdsa":false}, "signed_by":"panic",
-                               "digests_ok": false, "header_same": false, "payload_same": false, "panicked": true, "msg": m}))
+                               "digests_ok": false, "header_same": false, "payload_same": false, "files_same": false, "panicked": true, "msg": m}))
 }
 
 fn apply(p: &Package, op: &Value) -> Result<Package, String> {
@@ -78,7 +102,7 @@ fn walk(start_name: &str, kind: &str, start: Package, cases: &[Value], maxlen: u
     let mut bytes = vec![];
     start.write(&mut bytes).unwrap();
     let lay = rawhdr::layout(&bytes).unwrap();
-    let cx = Ctx { ids: key_id_map(), hdr0: bytes[lay.hdr_at..lay.payload_at].to_vec(), payload0: bytes[lay.payload_at..].to_vec() };
+    let cx = Ctx { ids: key_id_map(), hdr0: bytes[lay.hdr_at..lay.payload_at].to_vec(), payload0: bytes[lay.payload_at..].to_vec(), files0: files_token(&start) };
     // memo: path (as string) -> (package, observation)
     let mut memo: HashMap<String, (Option<Package>, Value)> = HashMap::new();
     let obs0 = observe(&start, &cx);
@@ -98,7 +122,7 @@ fn walk(start_name: &str, kind: &str, start: Package, cases: &[Value], maxlen: u
                     Some(pp) => match apply(pp, op) {
                         Ok(q) => { let o = observe(&q, &cx); (Some(q), o) }
                         Err(m) => (None, json!({"verifies": {"rsa4096":false,"rsa3072p":false,"ed25519":false,"ecdsa":false}, "signed_by":"-",
-                                               "digests_ok": false, "header_same": false, "payload_same": false, "panicked": true, "msg": m})),
+                                               "digests_ok": false, "header_same": false, "payload_same": false, "files_same": false, "panicked": true, "msg": m})),
                     },
                     None => (None, memo[&parent].1.clone()),
                 };
